@@ -396,6 +396,9 @@ func executeAs(s *rt.Spec, scn *rt.Scenario, prop, regName string) *execResult {
 		panic("program not registered: " + regName)
 	}
 	g := scn.G
+	if s.PkgState {
+		g = 1 // the program writes package-level variables: never two executions at once
+	}
 	if g < 1 {
 		g = 1
 	}
@@ -782,8 +785,8 @@ func TestInner(t *testing.T) {
 // returns the variant to execute: same faults and cancellation, but every
 // user function returns at once and one execution at a time per goroutine.
 func hammerScenario(t *rapid.T, s *rt.Spec, scn *rt.Scenario, prop string) *rt.Scenario {
-	if *flagHammer <= 0 || (prop != "C05" && prop != "C06") {
-		return nil
+	if *flagHammer <= 0 || (prop != "C05" && prop != "C06") || s.PkgState {
+		return nil // (a program that writes package-level variables is never executed concurrently with itself)
 	}
 	faulty := scn.CancelK != rt.CNone || len(scn.Elems) > 0
 	for _, o := range scn.Out {
